@@ -50,8 +50,8 @@ func CheckThesaurus(r *Report, tag string, seg segment.Segment, m *model.Seg, o 
 			unknown = append(unknown, f)
 		}
 	}
-	var sl segment.SynonymsList
-	var si segment.SynonymsIterator
+	var sl, slHit segment.SynonymsList // latest list; latest list that came from a successful lookup
+	var si, siHit segment.SynonymsIterator
 	for _, name := range append(names, unknown...) {
 		th, err := ts.Thesaurus(name)
 		if err != nil || th == nil {
@@ -110,6 +110,12 @@ func CheckThesaurus(r *Report, tag string, seg segment.Segment, m *model.Seg, o 
 				var preI segment.SynonymsIterator
 				if ei%2 == 1 {
 					preL, preI = sl, si
+					if slHit != nil && (len(exp) == 0 || ei%4 == 3) {
+						// a list that served a successful lookup, recycled for a miss
+						// (unknown term / unknown thesaurus) or another hit
+						preL, preI = slHit, siHit
+						r.Inc("thes_prealloc_hit_list_reused", 1)
+					}
 					r.Inc("thes_prealloc_reuse", 1)
 				}
 				l, err := th.SynonymsList([]byte(term), bm, preL)
@@ -154,6 +160,9 @@ func CheckThesaurus(r *Report, tag string, seg segment.Segment, m *model.Seg, o 
 					sl = sl0
 				}
 				si = it
+				if len(want) > 0 {
+					slHit, siHit = l, it
+				}
 			}
 		}
 	}
